@@ -149,6 +149,21 @@ def run(rep, build, tier, seed):
         rep.count(key="include-cycle-2", nontrivial=True)
         if p[0] != 0:
             rep.finding("include-cycle-2", "two configs including each other: exit status %s" % p[0], {"kind": "include-cycle"})
+        # diagnostics behind an include name the including file and ITS line numbers (also behind a nested include and when the
+        # included file is longer or shorter than the position of the directive)
+        for n_inc in (1, 6, 11):
+            incp = os.path.join(wd, "inc%d.cfg" % n_inc)
+            open(incp, "w").write("".join("sp_arith = force # %d\n" % k for k in range(n_inc)))
+            body = ["indent_columns = 3", "include \"%s\"" % incp, "indent_colums = 4", "sp_assign = force", "sp_arith = sometimes", "indent_columns = 99", "no_such = 1"]
+            text = ("\n".join(body) + "\n").encode()
+            I = cfgrun.impl_load(text, wd)
+            rep.count(key=("include-lines", n_inc), nontrivial=True)
+            rep.validated()
+            want = {3: "unknown-option", 5: None, 6: None, 7: "unknown-option"}
+            got = sorted(set(x[0] for x in I["diags"]))
+            if got != sorted(want):
+                rep.finding("include-linenumbers|%d" % n_inc, "after 'include' of a %d-line file on line 2 the diagnostics of lines 3, 5, 6, 7 name lines %s" % (n_inc, got),
+                            {"kind": "config", "cfg_b64": common.b64(text)})
         # nl_max guard (model: too_big over the generated list)
         guard = build.get("gen", {}).get("Registry.v", {}).get("nlmax_guard")
         for text, want in [(b"nl_max=2\nnl_after_func_body=3\n", True), (b"nl_max=3\nnl_after_func_body=3\n", False), (b"nl_max=0\nnl_after_func_body=9\n", False),
